@@ -30,7 +30,7 @@ TARGETS = [
     "sigma.conditions:SigmaCondition.parse",
 ]
 BOUNDS = {
-    "collections": "3 rules; first two of any of 16 kinds, third of 7 probe kinds (quick) / any kind (thorough); collect_errors on/off",
+    "collections": "3 rules; first two of any of 17 kinds (incl. a null keyword), third of 7 probe kinds (quick) / any kind (thorough); collect_errors on/off",
     "set-ups": "pipelines: none / mapping+state+failure+state-gated condition / strict field mapping; backends: shipped test backend, verification backend in NOT-as-not-equals mode",
     "outside": "more than 3 rules; correlation rules (C09/C10); deferred query parts",
 }
@@ -96,7 +96,7 @@ transformations:
 """,
 ]
 
-NK = 16
+NK = 17
 PROBES = [0, 8, 9, 10, 11, 14, 15]
 
 
@@ -135,6 +135,9 @@ def rule_doc(kind: int, i: int):
         det["sel"] = {"mappedA": f"v{i}"}
     elif kind == 15:
         det["sel"] = {"fA|expand": "%users%"}
+    elif kind == 16:
+        det["sel"] = [None]  # null keyword: can be loaded, cannot be converted
+        det["condition"] = "not sel"
     return d
 
 
@@ -233,7 +236,7 @@ def c08_concrete(k0: int, k1: int, k2: int, collect: bool, bk: int, pipe: int) -
 
 SETUPS = [(0, 1), (1, 1), (0, 2), (0, 0), (0, 3)]  # (backend, pipeline)
 OBLIGATIONS = (
-    [Ob("c08_isolation", {"BK": bk, "PIPE": pp, "K0LO": lo, "K0HI": lo + (5 if lo == 0 else 4)}, 600) for bk, pp in SETUPS for lo in (0, 6, 11)]
+    [Ob("c08_isolation", {"BK": bk, "PIPE": pp, "K0LO": lo, "K0HI": lo + (4 if lo == 6 else 5)}, 600) for bk, pp in SETUPS for lo in (0, 6, 11)]
     + [Ob("c08_isolation", {"BK": bk, "PIPE": pp, "K0LO": k, "K0HI": k, "FULL": 1}, 1800, tier="thorough") for bk, pp in SETUPS[:3] for k in range(NK)]
 )
 
